@@ -21,6 +21,8 @@ From Omega Require Import L4Steps.Mangle L4Steps.Stepper L4Steps.StepperProofs.
 From Omega Require Import L3History.Prefix L3History.PrefixProofs
   L3History.PrefixInst L3History.History L3History.HistoryProofs
   L3History.Cache L3History.CacheProofs.
+From OmegaGen Require PrefixGen.
+From OmegaGP Require PrefixBridge.
 Import ListNotations.
 Open Scope string_scope.
 
@@ -62,6 +64,67 @@ Proof.
   intros toks v. split.
   - exact (rec_spec D dtrue dfalse var node ap1 ap2 ren ren_none ap2_rename_none toks v).
   - exact (iter_spec D dtrue dfalse var node ap1 ap2 toks v).
+Qed.
+
+(* ---- tie T: the iterative translator is the TRANSLATED code --------------
+   gen/PrefixGen.v is regenerated from omega/symbolic/bdd_iterative.py (and
+   the token rules of bdd.Lexer) on every run by tools/py2coq_prefix.py;
+   GenProofs/PrefixBridge.v proves, on every run, that the translated
+   `add_expr` computes what the model iter_add_expr computes.  Python tokens
+   are (type, value) pairs of strings, [PrefixBridge.rel toks ptoks] says that
+   ptoks is what the lexer delivers for the model tokens toks; the stack and
+   the memory buffers of the code hold strings or nodes ([IVal]: a node);
+   [stale] is whatever an earlier call left unread in the lexer. *)
+Theorem C17_iterative_model_is_translated_code : forall fuel toks ptoks stale,
+  PrefixBridge.rel toks ptoks -> (fuel >= 3 * List.length toks + 2)%nat ->
+  PrefixGen.it_add_expr D dtrue dfalse var node ap1 ap2 fuel ptoks stale =
+  option_map (fun v => (PrefixGen.IVal D v, []))
+    (iter_add_expr D dtrue dfalse var node ap1 ap2 toks).
+Proof. exact (PrefixBridge.iter_code_eq_model D dtrue dfalse var node ap1 ap2). Qed.
+
+(* every list of tokens that the real lexer can deliver is covered *)
+Theorem C17_translated_covers_lexer_tokens : forall fuel ptoks stale,
+  forallb PrefixBridge.ptok_ok ptoks = true ->
+  (fuel >= 3 * List.length ptoks + 2)%nat ->
+  PrefixGen.it_add_expr D dtrue dfalse var node ap1 ap2 fuel ptoks stale =
+  option_map (fun v => (PrefixGen.IVal D v, []))
+    (iter_add_expr D dtrue dfalse var node ap1 ap2 (map PrefixBridge.abs ptoks)).
+Proof.
+  intros fuel ptoks stale OK Hf.
+  apply C17_iterative_model_is_translated_code.
+  - apply PrefixBridge.ptoks_ok_rel, OK.
+  - rewrite map_length. exact Hf.
+Qed.
+
+(* parsers_agree for the translated code: the code of bdd_iterative.py and
+   the recursive translator (model) return the same node or both reject *)
+Theorem C17_translated_iterative_agrees_with_recursive :
+  forall fuel toks ptoks stale,
+  no_at toks ->
+  PrefixBridge.rel toks ptoks -> (fuel >= 3 * List.length toks + 2)%nat ->
+  PrefixGen.it_add_expr D dtrue dfalse var node ap1 ap2 fuel ptoks stale =
+  option_map (fun v => (PrefixGen.IVal D v, []))
+    (rec_add_expr D dtrue dfalse var node ap1 ap2 ren toks).
+Proof.
+  intros fuel toks ptoks stale NA R Hf.
+  rewrite (C17_parsers_agree toks NA).
+  exact (C17_iterative_model_is_translated_code fuel toks ptoks stale R Hf).
+Qed.
+
+(* translators_spec for the translated code: it accepts exactly the
+   well-formed prefix expressions and returns their value *)
+Theorem C17_translated_iterative_spec : forall fuel toks ptoks stale v,
+  PrefixBridge.rel toks ptoks -> (fuel >= 3 * List.length toks + 2)%nat ->
+  (PrefixGen.it_add_expr D dtrue dfalse var node ap1 ap2 fuel ptoks stale
+     = Some (PrefixGen.IVal D v, [])
+   <-> E D dtrue dfalse var node ap1 ap2 None toks v []).
+Proof.
+  intros fuel toks ptoks stale v R Hf.
+  rewrite (C17_iterative_model_is_translated_code fuel toks ptoks stale R Hf).
+  rewrite <- (iter_spec D dtrue dfalse var node ap1 ap2 toks v).
+  destruct (iter_add_expr D dtrue dfalse var node ap1 ap2 toks) as [w|]; simpl.
+  - split; intros H; [injection H as ->; reflexivity|injection H as ->; reflexivity].
+  - split; discriminate.
 Qed.
 End Translators.
 
@@ -221,7 +284,76 @@ Proof.
            Ht Hf Hv Hn H1 H2 HR toks NA).
 Qed.
 
+(* back-end independence for the translated code, under the same explicit
+   contract about dd *)
+Theorem C17_translated_backend_independent :
+  forall (D1 D2 : Type) (t1 f1 : D1) (t2 f2 : D2)
+    (var1 : string -> option D1) (var2 : string -> option D2)
+    (node1 : Z -> option D1) (node2 : Z -> option D2)
+    (ap11 : D1 -> option D1) (ap12 : D2 -> option D2)
+    (ap21 : binop -> D1 -> D1 -> option D1) (ap22 : binop -> D2 -> D2 -> option D2)
+    (h : D1 -> D2),
+  h t1 = t2 -> h f1 = f2 ->
+  (forall s, var2 s = option_map h (var1 s)) ->
+  (forall z, node2 z = option_map h (node1 z)) ->
+  (forall u, ap12 (h u) = option_map h (ap11 u)) ->
+  (forall op u v, ap22 op (h u) (h v) = option_map h (ap21 op u v)) ->
+  (forall u v, ap21 Rename u v = None) ->
+  forall fuel toks ptoks stale, no_at toks ->
+    PrefixBridge.rel toks ptoks -> (fuel >= 3 * List.length toks + 2)%nat ->
+    PrefixGen.it_add_expr D2 t2 f2 var2 node2 ap12 ap22 fuel ptoks stale =
+    option_map (fun v => (PrefixGen.IVal D2 (h v), []))
+      (rec_add_expr D1 t1 f1 var1 node1 ap11 ap21 (fun _ _ => None) toks).
+Proof.
+  intros D1 D2 t1 f1 t2 f2 var1 var2 node1 node2 ap11 ap12 ap21 ap22 h
+    Ht Hf Hv Hn H1 H2 HR fuel toks ptoks stale NA R Hfuel.
+  rewrite (C17_iterative_model_is_translated_code D2 t2 f2 var2 node2 ap12 ap22
+             fuel toks ptoks stale R Hfuel).
+  rewrite (C17_backend_independent_given_contract D1 D2 t1 f1 t2 f2 var1 var2
+             node1 node2 ap11 ap12 ap21 ap22 h Ht Hf Hv Hn H1 H2 HR toks NA).
+  destruct (rec_add_expr D1 t1 f1 var1 node1 ap11 ap21 (fun _ _ => None) toks);
+    reflexivity.
+Qed.
+
+(* non-vacuity: a token list of the lexer with buffers and registers, its
+   model tokens, and the translated code run on it in the Boolean-function
+   algebra of the check; the token rules of bdd.Lexer read on this run *)
+Example C17_translated_instance :
+  let ptoks :=
+    [PrefixGen.mkTok "DOLLAR" "$"; PrefixGen.mkTok "NUMBER" "3";
+     PrefixGen.mkTok "AND" "&"; PrefixGen.mkTok "NAME" "x"; PrefixGen.mkTok "NAME" "y";
+     PrefixGen.mkTok "NOT" "!"; PrefixGen.mkTok "NAME" "y";
+     PrefixGen.mkTok "OR" "|"; PrefixGen.mkTok "QUESTION" "?"; PrefixGen.mkTok "NUMBER" "0";
+     PrefixGen.mkTok "QUESTION" "?"; PrefixGen.mkTok "NUMBER" "1"] in
+  let toks :=
+    [TDollar; TNum (Some 3%Z); TBin And; TName "x"; TName "y"; TNot; TName "y";
+     TBin Or; TQuestion; TNum (Some 0%Z); TQuestion; TNum (Some 1%Z)] in
+  PrefixBridge.rel toks ptoks /\
+  forallb PrefixBridge.ptok_ok ptoks = true /\
+  map PrefixBridge.abs ptoks = toks /\
+  match PrefixGen.it_add_expr bfun itrue ifalse (ivar ["x"; "y"]) inode iap1
+          (iap2 ["x"; "y"]) 38 ptoks [PrefixGen.mkTok "NOT" "!"] with
+  | Some (PrefixGen.IVal _ d, []) => map d (all_asg 2) = [true; false; true; true]
+  | _ => False
+  end /\
+  PrefixGen.lexer_table =
+  [("AT", "@"); ("NUMBER", "[-]*\d+"); ("NAME", "[A-Za-z_][A-Za-z0-9_']*");
+   ("FORALL", "\\A"); ("EXISTS", "\\E"); ("RENAME", "\\S"); ("DIV", "/");
+   ("NOT", "!"); ("AND", "\&"); ("OR", "\|"); ("XOR", "\^");
+   ("DOLLAR", "\$"); ("QUESTION", "\?")].
+Proof.
+  cbv zeta. split; [|split; [reflexivity|split; [reflexivity|split; [reflexivity|]]]].
+  - repeat constructor; simpl; eauto.
+  - exact PrefixBridge.lexer_table_ok.
+Qed.
+
 Print Assumptions C17_parsers_agree.
+Print Assumptions C17_iterative_model_is_translated_code.
+Print Assumptions C17_translated_covers_lexer_tokens.
+Print Assumptions C17_translated_iterative_agrees_with_recursive.
+Print Assumptions C17_translated_iterative_spec.
+Print Assumptions C17_translated_backend_independent.
+Print Assumptions C17_translated_instance.
 Print Assumptions C17_backend_independent_given_contract.
 Print Assumptions C17_translators_spec.
 Print Assumptions C17_parsers_agree_instance.
